@@ -1,4 +1,4 @@
-//go:build verif
+//go:build verif && (p_all || p_c19)
 
 package props
 
